@@ -23,7 +23,10 @@ Record conn_case := {
   cc_segs : list (Z * option bytes);   (* the client's plaintext byte stream as delivered: timed segments, None = end of stream *)
   cc_eof : Z;
   (* every poll_write the transport saw: (bytes offered, bytes accepted or -1 for Pending) *)
-  cc_writes : list (Z * Z) }.
+  cc_writes : list (Z * Z);
+  cc_wsched : list (Z * option Z);  (* M3: instants at which the free room of the transport is set *)
+  cc_loclat : Z;                    (* M3: how long localize() suspends *)
+  cc_wire : list (Z * Z) }.         (* (instant, bytes accepted) per accepted write *)
 
 Fixpoint lookup_b {A} (k : bytes) (l : list (bytes * A)) : option A :=
   match l with [] => None | (a, v) :: r => if beq a k then Some v else lookup_b k r end.
@@ -54,7 +57,7 @@ Definition case_env (c : conn_case) : env := {|
     | CDiscover => cc_discover c
     | CFilter _ _ _ _ _ _ _ => cc_filter c
     | CSelect _ _ _ _ _ _ _ => cc_select c
-    | CLocalize l k => (match lookup_by lockey_eqb (l, k) (cc_loc c) with Some r => r | None => RErr end, 0)
+    | CLocalize l k => (match lookup_by lockey_eqb (l, k) (cc_loc c) with Some r => r | None => RErr end, cc_loclat c)
     end;
   e_fresh := fun w n => match w with
     | RToken => cc_token c
